@@ -1,4 +1,5 @@
 """C19 - the SP session cache returns only unexpired data of the right subject."""
+import copy
 from veriflib import boot
 boot.install()
 from veriflib.boot import Clock, concrete
@@ -9,7 +10,9 @@ from saml2_tophat.ident import code
 
 # two name identifiers differing in exactly one field
 S = [saml.NameID(text="user", format=saml.NAMEID_FORMAT_PERSISTENT, sp_name_qualifier="sp-one"),
-     saml.NameID(text="user", format=saml.NAMEID_FORMAT_PERSISTENT, sp_name_qualifier="sp-two")]
+     saml.NameID(text="user", format=saml.NAMEID_FORMAT_PERSISTENT, sp_name_qualifier="sp-two"),
+     saml.NameID(text="user", format=saml.NAMEID_FORMAT_PERSISTENT)]          # the same without any qualifier
+NS = len(S)
 E = ["urn:idp:one", "urn:idp:two"]
 INFO = [{"ava": {"givenName": ["Alice"], "mail": ["a@one"]}, "tag": "A"},
         {"ava": {"mail": ["a@two"], "sn": ["Smith"]}, "tag": "B"},
@@ -17,15 +20,25 @@ INFO = [{"ava": {"givenName": ["Alice"], "mail": ["a@one"]}, "tag": "A"},
         {"ava": {"title": ["dr"]}, "tag": "D"}]
 # op codes: (kind, subject, source, info, expiry slot)
 OPS = [("set", 0, 0, 0, 0), ("set", 0, 1, 1, 1), ("set", 1, 0, 2, 2), ("set", 0, 0, 3, 1),
-       ("reset", 0, 0), ("reset", 0, 1), ("delete", 0), ("delete", 1), ("set", 1, 1, 3, 0)]
+       ("reset", 0, 0), ("reset", 0, 1), ("delete", 0), ("delete", 1), ("set", 1, 1, 3, 0),
+       ("identity", 0), ("tick",), ("set", 2, 0, 2, 0), ("delete", 2)]
 NOPS = len(OPS)
 
 
-def _apply(cache, model, op, exps):
+def _apply(cache, model, op, exps, clock):
     kind = op[0]
+    if kind == "identity":
+        # a read in the middle of the history must not change what is stored
+        cache.get_identity(S[op[1]], None, True)
+        return
+    if kind == "tick":
+        from veriflib import timemodel
+        clock["now"] = clock["later"]
+        timemodel.ENV["now"] = clock["later"]
+        return
     if kind == "set":
         _, s, e, i, x = op
-        cache.set(S[s], E[e], INFO[i], exps[x])
+        cache.set(S[s], E[e], copy.deepcopy(INFO[i]), exps[x])     # the oracle keeps the pristine INFO
         model.setdefault(s, {})[e] = (exps[x], i)
     elif kind == "reset":
         _, s, e = op
@@ -40,7 +53,7 @@ def _apply(cache, model, op, exps):
         model.pop(s, None)
 
 
-def history(o1: int, o2: int, o3: int, o4: int, n: int, now: int, x0: int, x1: int, x2: int, check: bool):
+def history(o1: int, o2: int, o3: int, o4: int, n: int, now: int, x0: int, x1: int, x2: int, check: bool, later: int = 0):
     """A history of n operations (store / overwrite / reset / delete over two subjects that differ
     in one NameID field and two sources, with three symbolic expiry instants), followed by a
     battery of queries compared with a reference model under a symbolic clock."""
@@ -49,10 +62,12 @@ def history(o1: int, o2: int, o3: int, o4: int, n: int, now: int, x0: int, x1: i
     exps = (x0, x1, x2)
     cache = Cache()
     model = {}
+    clock = {"now": now, "later": later if later >= now else now}
     for op in ops:
-        _apply(cache, model, op, exps)
+        _apply(cache, model, op, exps, clock)
+    now = clock["now"]
     ok = True
-    for s in (0, 1):
+    for s in range(NS):
         stored = model.get(s, {})
         live = {}
         stale = []
@@ -103,17 +118,20 @@ def history(o1: int, o2: int, o3: int, o4: int, n: int, now: int, x0: int, x1: i
 CONDITIONS = [
     Cond(name="history", fn="history",
          params=[("o1", "int"), ("o2", "int"), ("o3", "int"), ("o4", "int"), ("n", "int"), ("now", "int"),
-                 ("x0", "int"), ("x1", "int"), ("x2", "int"), ("check", "bool")],
+                 ("x0", "int"), ("x1", "int"), ("x2", "int"), ("check", "bool"), ("later", "int")],
          pre=["0 <= o1 < %d" % NOPS, "0 <= o2 < %d" % NOPS, "0 <= o3 < %d" % NOPS, "0 <= o4 < %d" % NOPS, "1 <= n <= 4",
-              "1 <= now <= 1000000", "1 <= x0 <= 1000000", "1 <= x1 <= 1000000", "1 <= x2 <= 1000000"],
-         partitions={"quick": [{"n": 2, "o3": 0, "o4": 0, "o1": a, "o2": b} for a in range(NOPS) for b in range(NOPS)] +
-                              [{"n": 3, "o4": 0, "o1": a, "o2": b, "o3": c, "check": True} for (a, b) in ((0, 1), (0, 4), (1, 6), (3, 2)) for c in range(NOPS)],
+              "1 <= now <= 1000000", "1 <= later <= 1000000", "1 <= x0 <= 1000000", "1 <= x1 <= 1000000", "1 <= x2 <= 1000000"],
+         partitions={"quick": [{"n": 2, "o3": 0, "o4": 0, "o1": a, "o2": b} for a in range(NOPS) for b in (0, 1, 2, 4, 6, 9, 11)] +
+                              [{"n": 3, "o4": 0, "o1": a, "o2": b, "o3": c, "check": True} for (a, b) in ((0, 1), (3, 2)) for c in range(NOPS)] +
+                              [{"n": 4, "o1": 0, "o2": 1, "o3": 9, "o4": d, "check": True} for d in (4, 5, 3, 10)] +
+                              [{"n": 4, "o1": 1, "o2": 0, "o3": 9, "o4": d, "check": True} for d in (4, 5, 10)],
                      "thorough": [{"n": 3, "o4": 0, "o1": a, "o2": b} for a in range(NOPS) for b in range(NOPS)] +
                                  [{"n": 4, "o1": a, "o2": b, "o3": c, "check": True} for a in (0, 1, 3) for b in (1, 2, 4, 6) for c in range(NOPS)]},
          timeout={"quick": 600, "thorough": 1800}, path_timeout=60,
          functions=["cache.Cache.set/get/get_identity/reset/delete/active/entities/subjects", "time_util.after/before/not_on_or_after", "ident.code/decode"],
-         bounds="histories of 2 and (sampled first two ops) 3 operations in quick, all 3-op and sampled 4-op histories in thorough, over 9 operation codes "
-                "(store from two sources for two subjects differing in one NameID field, overwrite, reset, delete); three symbolic expiry instants and a symbolic clock in [1, 10^6] "
+         bounds="histories of 2 and (sampled first two ops) 3 operations in quick, all 3-op and sampled 4-op histories in thorough, over 13 operation codes "
+                "(store from two sources for three subjects - two differing in one NameID field, one lacking it -, overwrite, reset, delete, a get_identity read in mid-history, "
+                "a clock tick to a later symbolic instant); three symbolic expiry instants and a symbolic clock in [1, 10^6] "
                 "(z3 decides every ordering incl. ties); expiry checking on/off"),
 ]
 
